@@ -18,6 +18,9 @@ type SMLoad struct {
 	Via   string   `json:"via"`  // map | slice | badslice (mismatched lengths) | none
 	Keys  []string `json:"keys"` // hex
 	Probe []string `json:"probe,omitempty"`
+	// Flood > 0: at run time, Flood of the keys are replaced by keys that all hash to ONE slot of this instance's table
+	// (found through the slot hook on the table of the previous load of the same size): an adversarial collision chain
+	Flood int `json:"flood,omitempty"`
 }
 
 type SMCase struct {
@@ -321,6 +324,29 @@ func runSMCase(raw json.RawMessage, w *TraceWriter) {
 			kb, _ := hex.DecodeString(kh)
 			keys[i] = string(kb)
 		}
+		var floodProbes []string
+		if ld.Flood > 0 && li > 0 && len(keys) >= ld.Flood {
+			bySlot := map[uint32][]string{}
+			best := uint32(0)
+			for i := 0; len(bySlot[best]) < ld.Flood+4 && i < 3000000; i++ {
+				k := fmt.Sprintf("flood-%d-%d", li, i)
+				sl, ok := d.slot(k)
+				if !ok {
+					break
+				}
+				bySlot[sl] = append(bySlot[sl], k)
+				if len(bySlot[sl]) > len(bySlot[best]) {
+					best = sl
+				}
+			}
+			if coll := bySlot[best]; len(coll) >= ld.Flood {
+				members := coll[:ld.Flood]
+				copy(keys, members) // the table size depends on the key count only: it stays what the hook saw
+				for _, k := range coll {
+					floodProbes = append(floodProbes, hx(k)) // members and same-slot strangers
+				}
+			}
+		}
 		vals := make([]int, len(keys))
 		for i := range vals {
 			valBase++
@@ -352,6 +378,7 @@ func runSMCase(raw json.RawMessage, w *TraceWriter) {
 		w.Ev("load", "via", via, "ok", err == nil, "len", d.length(), "kv", Raw("["+strings.Join(kv, ",")+"]"),
 			"items", Raw("["+strings.Join(items, ",")+"]"), "ht", intsJSON(hts), "enum", Raw("["+strings.Join(enum, ",")+"]"))
 		probe(ld.Probe)
+		probe(floodProbes)
 	}
 }
 
@@ -490,6 +517,14 @@ func genSMCases(c *Ctx) []json.RawMessage {
 			out = append(out, mustJSON(SMCase{VT: vts[i%3], Fresh: i%9 == 0, Loads: []SMLoad{mk(n, 12)}}))
 		}
 	}
+	// adversarial collision chains (hash flooding): the second load of the same size puts 9..40 keys into one slot
+	for i := 0; i < c.Pick(24, 240); i++ {
+		n := []int{40, 100, 100, 300, 1000}[i%5]
+		chain := []int{9, 10, 12, 17, 33, 40}[i%6]
+		l2 := mk(n, 20)
+		l2.Flood, l2.Via = chain, "slice"
+		out = append(out, mustJSON(SMCase{VT: vts[i%3], Loads: []SMLoad{mk(n, 5), l2, mk(n/2, 10)}}))
+	}
 	// the constructors (NewFromMap / NewFromSlice / NewStr2StrFromMap / NewStr2StrFromSlice; a bad slice pair makes
 	// them panic = a failed first load) and a zero-value Str2Str, followed by reloads
 	for i := 0; i < c.Pick(90, 900); i++ {
@@ -567,7 +602,7 @@ func bigMapMonitor(c *Ctx) {
 }
 
 func checkC07(c *Ctx) {
-	c.rule = "MC: every subset of a key universe with the empty key and prefixes ({\"\",a,ab[,b]}) x every assignment of keys to slots (the hash is an arbitrary function chosen at load) x every slot-sorted item order x histories of 2 loads/failed loads/never loaded: Get = Go-map semantics for every probe and every slot the probe may hash to. TRACE: fresh instances of StrMap[int], StrMap[struct], Str2Str per size class (random maphash seeds => many chain shapes), reload histories (grow, shrink, failed load), never-loaded and empty instances, instances made by the four constructors and a zero-value Str2Str, maps up to 5000 keys; every load must be an enabled Load action on the REAL table read through the hook (slot-sorted, first-index table, prime slot count, Item enumeration), every Get must agree with MapAbs and with ImplGet on the real table. Maps of 10^5 keys are compared with a Go map in Go (monitor)."
+	c.rule = "MC: every subset of a key universe with the empty key and prefixes ({\"\",a,ab[,b]}) x every assignment of keys to slots (the hash is an arbitrary function chosen at load) x every slot-sorted item order x histories of 2 loads/failed loads/never loaded: Get = Go-map semantics for every probe and every slot the probe may hash to. TRACE: fresh instances of StrMap[int], StrMap[struct], Str2Str per size class (random maphash seeds => many chain shapes), reload histories (grow, shrink, failed load), never-loaded and empty instances, instances made by the four constructors and a zero-value Str2Str, adversarial collision chains of 9..40 keys in one slot (keys chosen against the instance's seed through the slot hook), maps up to 5000 keys; every load must be an enabled Load action on the REAL table read through the hook (slot-sorted, first-index table, prime slot count, Item enumeration), every Get must agree with MapAbs and with ImplGet on the real table. Maps of 10^5 keys are compared with a Go map in Go (monitor)."
 	if c.Thorough() {
 		c.MC("MC_StrMap.tla", "MC_StrMap_thorough.cfg", 12)
 	} else {
